@@ -10,8 +10,8 @@ import (
 	"go/build"
 	"io"
 	"os"
-	"path"
 	"path/filepath"
+	"strings"
 	"time"
 
 	log "github.com/sirupsen/logrus"
@@ -65,7 +65,9 @@ var cacheRoot = func() string {
 // strings. The set of keys must uniquely identify cacheable object. Prefer
 // using more specific functions to ensure key consistency.
 func cachedPath(keys ...string) string {
-	key := path.Join(keys...)
+	// The key is a name, not a path: it must not be cleaned (a ".." inside a
+	// configuration value would swallow the fields written before it).
+	key := strings.Join(keys, "/")
 	if key == "" {
 		panic("CachedPath() must not be used with an empty string")
 	}
@@ -274,5 +276,5 @@ func (bc *BuildCache) commonKey() string {
 
 // packageKey returns a full cache key for a package's cache.
 func (bc *BuildCache) packageKey(importPath string) string {
-	return path.Join("package", bc.commonKey(), importPath)
+	return "package/" + bc.commonKey() + "/" + importPath
 }
